@@ -9,6 +9,9 @@ from .c07_scen import prog
 Q = spec.Q
 
 
+CUSTOM_FELT = set()
+
+
 def felt_glue_scen(n, tag=''):
     P = prog()
     ex = new_exec(P)
@@ -35,10 +38,12 @@ def felt_glue_scen(n, tag=''):
             return UNIT
         return f
     overridden = [m for m in ('fft', 'ifft', 'split_fft', 'merge_fft') if '<Felt as CyclotomicFourier>::' + m in P.by_key]
-    if overridden:
-        ex.abstract_rem = True          # obligations of a type-specific butterfly stay local: residues are cut points
-        ex.use_intervals = True         # and most of them are discharged by interval arithmetic before any solver query
-        ex.deadline = time.time() + 1500
+    # whenever field arithmetic is actually executed here (a type-specific butterfly, or a FastFft method that does its own strided
+    # layers instead of calling the generic code) the obligations stay local: residues `x % q` are cut points, and most overflow
+    # obligations are discharged by interval arithmetic before any solver query. On the unchanged tree no arithmetic runs here at all.
+    ex.abstract_rem = True
+    ex.use_intervals = True
+    ex.deadline = time.time() + 1500
     for mname in ('fft', 'ifft', 'split_fft', 'merge_fft'):
         if mname not in overridden:
             ex.over['CyclotomicFourier::' + mname] = rec(mname)
@@ -51,6 +56,10 @@ def felt_glue_scen(n, tag=''):
         fn = P.by_key['<Polynomial<Felt> as FastFft>::' + meth]
         del log[:]
         ex.panics = []
+        if meth in CUSTOM_FELT and n > 64:
+            # already seen (at a smaller length) to do its own arithmetic instead of calling the generic butterflies: executing ten
+            # symbolic layers at n = 1024 adds nothing to that finding
+            res['calls'].append((meth, [])); res['panics'].append((meth, [])); continue
         ex.on_return = lambda e, s, rv: None
         cell = Loc(('T', poly))
         st = State()
@@ -62,6 +71,9 @@ def felt_glue_scen(n, tag=''):
         ex.explore(st)
         res['calls'].append((meth, [(nm, ln, [(k, (v if k == 'felt' else v)) for k, v in tabs]) for nm, ln, tabs in log]))
         res['panics'].append((meth, [p['msg'] for p in ex.panics]))
+        gen = {'fft_inplace': 'fft', 'ifft_inplace': 'ifft'}.get(meth, meth)
+        if not log and gen not in overridden and not ex.panics and n >= 2:
+            CUSTOM_FELT.add(meth)
         res.setdefault('panic_models', []).extend((meth, p['msg'], p['site'], [(p['inputs'] or {}).get('a%d' % i, 0) for i in range(n)]) for p in ex.panics[:2] if p['kind'] == 'assert' or True)
     res['overridden'] = overridden
     res['paths'] = ex.paths; res['queries'] = ex.nq; res['solver_s'] = ex.solver_s; res['steps'] = ex.steps
@@ -233,7 +245,12 @@ def complex_glue_scen(n):
         args = [Ref(holder)] if meth != 'merge_fft' else [Ref(holder), Ref(holder)]
         for p, a in zip(fn.params, args): fr.locals[p] = a
         st.stack.append(fr)
-        ex.explore(st)
+        try:
+            ex.explore(st)
+        except Unsupported as e:
+            # the method does its own floating-point work instead of handing table + data to the generic butterflies: it cannot be
+            # compared structurally; it is checked natively (complex_ops) by the driver
+            res.setdefault('custom', {})[meth] = str(e)[:160]
         res['calls'][meth] = list(log)
         res['panics'][meth] = [p['msg'] for p in ex.panics]
     res['paths'] = ex.paths; res['steps'] = ex.steps; res['queries'] = ex.nq
@@ -264,6 +281,8 @@ def run_complex(rep, tier):
         for meth, generic, conj, need in (('fft_inplace', 'fft', False, n), ('ifft_inplace', 'ifft', True, n), ('split_fft', 'split_fft', True, n), ('merge_fft', 'merge_fft', False, 2 * n)):
             checks += 1
             c = r['calls'][meth]
+            if meth in r.get('custom', {}):
+                bad.append((n, '%s does not hand its work to the generic %s (own implementation: %s)' % (meth, generic, r['custom'][meth]))); continue
             if len(c) != 1 or c[0][0] != generic:
                 bad.append((n, '%s calls %s instead of exactly one generic %s' % (meth, [x[0] for x in c], generic))); continue
             tabs = [v for k, v in c[0][1] if k == 'table' and not (len(v) == n and abs(v[0][0] - 1.0) < 1e-9 and abs(v[min(1, n - 1)][0] - 2.0) < 1e-9)]
